@@ -144,6 +144,20 @@ claim('C20',
       'DESIGN.md section 4 C20')
 
 
+claim('C13',
+      'Transpose.tla transcribes the loop nest of the on-disk transposition (count pass, blocks cut by '
+      'elements_at_a_time, load chunks, next-free-slot table, sub-range of the minor axis) and the range-order '
+      'join of the parallel version; TLC proves Correct / PtrMonotone / CursorInv / ParallelJoinCorrect for '
+      'every sparse pattern (3x3 with all sub-ranges and budgets; 4x4 in thorough). TLC emits every pattern '
+      'with its transpose for replay through the serial, parallel and csc_to_csr entry points and (SparseOps) '
+      'through pivot / row shuffle / column subset / amalgamation / layer copy; hook traces of matrices with '
+      '>100 entries are validated by Transpose_Trace with the enforced minimum budgets.',
+      'Trusted: TLC, h5py, anndata reader for file-level results, scipy (second oracle on large matrices). '
+      'Defects F1, F2, F13 were repaired (fix: commits) and are listed as fixed.',
+      'TLA+ transcription of the algorithm checked exhaustively; TLC-emitted scenarios replayed; trace validation',
+      'DESIGN.md section 4 C13')
+
+
 def build():
     props = [json.loads(l) for l in open(ROOT / 'properties.jsonl')]
     checks = []
@@ -197,7 +211,7 @@ def build():
     return m
 
 
-HOOK_COMMITS = ['1bd1220']
+HOOK_COMMITS = ['1bd1220', '739be0d']
 
 if __name__ == '__main__':
     m = build()
